@@ -248,6 +248,8 @@ inductive Defect where
   | descent (i : Nat)
   | equal (i : Nat)
   | fake (i : Nat) (len : Nat)
+  /-- the last pair carries the tag of pair `j`; values `62` (pair `j`) and `61` (the late pair) -/
+  | late (j : Nat)
 
 def parseDefect (s : String) : Option Defect :=
   if s = "-" then some .none
@@ -255,6 +257,7 @@ def parseDefect (s : String) : Option Defect :=
     let rest := (s.drop 1).toString
     if s.startsWith "d" then rest.toNat?.map .descent
     else if s.startsWith "e" then rest.toNat?.map .equal
+    else if s.startsWith "t" then rest.toNat?.map .late
     else if s.startsWith "f" then
       match rest.splitOn ":" with
       | [i, len] =>
@@ -273,10 +276,13 @@ def runItems (vt : String) (l : Nat) (d : Defect) : Option (List (UInt32 × Item
     match d with
     | .descent i => if j = i then 10 + 2 * (i + 1) else if j = i + 1 then 10 + 2 * i else 10 + 2 * j
     | .equal i => if j = i + 1 then 10 + 2 * i else 10 + 2 * j
+    | .late i => if j + 1 = l then 10 + 2 * i else 10 + 2 * j
     | _ => 10 + 2 * j
   let item (j : Nat) : ItemSpec :=
     match d with
     | .fake i len => if j = i then .fake len else .bytes (methodOf vt "b") []
+    | .late i => if j = i then .bytes (methodOf vt "b") [0x62]
+                 else if j + 1 = l then .bytes (methodOf vt "b") [0x61] else .bytes (methodOf vt "b") []
     | _ => .bytes (methodOf vt "b") []
   let ok : Bool :=
     kindAllowed vt "b" && l ≤ 100000 &&
@@ -284,6 +290,7 @@ def runItems (vt : String) (l : Nat) (d : Defect) : Option (List (UInt32 × Item
      | .none => true
      | .descent i => i + 1 < l
      | .equal i => i + 1 < l
+     | .late i => 2 ≤ l && i + 1 < l
      | .fake i _ => i < l && vt == "h")
   if ok then some ((List.range l).map (fun j => (UInt32.ofNat (tag j), item j))) else none
 
